@@ -10,6 +10,7 @@ import z3
 from contracts.common import *  # noqa
 from contracts import common
 from pyvc import driver
+from contracts.c14 import unit_closed as unit_bk_tables, unit_encode as unit_bk_encode, unit_charliteral as unit_bk_charliteral  # noqa
 
 ID = "C06"
 EXPLANATION = ("Every path of the real function bodies is executed symbolically (values in Z, no bound); operand counts 0..8 are "
@@ -458,6 +459,9 @@ def units(tier):
     for n in range(1, NMAX + 1):
         us.append(("wordlist[%d]" % n, "unit_word_list", dict(n=n)))
     us.append(("directive-typing", "unit_typing", {}))
+    # the codec contract the string directives assume (encode succeeds iff every character is in the charset, bytes pointwise, otherwise the
+    # error is reported) is DISCHARGED for the default 'bk' charset by C14's obligations, re-run here; the other charsets are stdlib codecs
+    us += [("bk-tables", "unit_bk_tables", {}), ("bk-encode", "unit_bk_encode", {}), ("bk-charliteral", "unit_bk_charliteral", {})]
     return us
 
 
